@@ -12,7 +12,7 @@ RULE = (
     "screens of arity 1..3 with 1..12 rows (duplicates frequent), any plate-atomic mask; a history of 3..12 operations, each building a new view "
     "from earlier ones (operands chosen by drawn indices): subset with empty/full/overlapping masks, subset of subset, combine, concat, invert, "
     "get_plate, observed/unobserved split, to_screen, unique-condition filter, and in-place changes of the parent between them (set_observed on a plate or on arbitrary unobserved rows, Plate.merge of plates of equal or different observation status, so plates may be partly observed); a second screen for the cross-parent refusal; random int columns for "
-    "select_unique_zipped_numpy_arrays vs a dict reference. Non-trivial = history contains a nested subset and a union and has depth>=3. distinct = distinct case JSON."
+    "select_unique_zipped_numpy_arrays vs a dict reference; once per run the unique filter on every three-row view [X, Y, X] of a full two-slot design (2 samples x (T+1)^2 conditions, T=5 / 7) and, for small screens, on every view of three rows. Non-trivial = history contains a nested subset and a union and has depth>=3. distinct = distinct case JSON."
 )
 ASSUMPTIONS = [
     "the model of a view is the sorted list of parent row indices; ids of a materialised screen are not asserted (Screen.combine/to_screen document that ids may change)",
@@ -90,7 +90,44 @@ def _self_consistent(view, screen, tag):
         require(_eq(got, exp), tag + ".self." + a, lambda: "view.%s = %r, but the parent's values at the rows the view selects %r are %r" % (a, np.asarray(got).tolist(), idx.tolist(), exp.tolist()))
 
 
+def exhaustive(tier):
+    # the unique filter on every three-row view [X, Y, X] of a full two-slot design (ids 0..T-1 and control, two samples): views
+    # whose ids have gaps, with a replicate of X after another condition Y
+    yield {"kind": "xyx", "T": 5 if tier == "quick" else 7}
+
+
+def _check_xyx(case):
+    from batchie.data import filter_dataset_to_unique_treatments
+
+    T = case["T"]
+    ids = list(range(-1, T))
+    design = [(s_, a_, b_) for s_ in (0, 1) for a_ in ids for b_ in ids]
+    rows = []
+    for blk in range(3):
+        for s_, a_, b_ in design:
+            rows.append({"s": "s%d" % s_, "p": "p%d" % blk, "t": ["ctl" if a_ < 0 else "t%d" % a_, "ctl" if b_ < 0 else "t%d" % b_], "d": [0.0 if a_ < 0 else 1.0, 0.0 if b_ < 0 else 1.0], "o": 0.5})
+    screen = S.build_screen({"arity": 2, "control": "ctl", "rows": rows, "observed": []})
+    n, m = len(rows), len(design)
+    sid, tid = np.asarray(screen.sample_ids), np.asarray(screen.treatment_ids)
+    key = lambda i: (int(sid[i]),) + tuple(int(x) for x in tid[i])
+    checked = 0
+    for xi in range(0, m // 2):  # X among the first sample's conditions
+        for yi in range(m):
+            if design[yi] == design[xi]:
+                continue
+            trio = [xi, m + yi, 2 * m + xi]
+            sel = np.zeros(n, dtype=bool)
+            sel[trio] = True
+            got = np.where(np.asarray(filter_dataset_to_unique_treatments(screen.subset(sel)).selection_vector))[0].tolist()
+            ks = [key(i) for i in got]
+            require(set(got) <= set(trio) and len(ks) == 2 and set(ks) == {key(trio[0]), key(trio[1])}, "unique.xyx_views", lambda: "unique filter on the view [X, Y, X] with X=%r, Y=%r (sample id, treatment ids) keeps rows with conditions %r" % (key(trio[0]), key(trio[1]), ks))
+            checked += 1
+    return {"nontrivial": True, "labels": ["xyx-views"], "counts": {"xyx_views": checked}}
+
+
 def check_case(case):
+    if case.get("kind") == "xyx":
+        return _check_xyx(case)
     from batchie.common import select_unique_zipped_numpy_arrays
     from batchie.data import ScreenSubset, filter_dataset_to_unique_treatments
 
@@ -251,6 +288,18 @@ def check_case(case):
     # parent never modified by view operations (other than by the set_observed steps above, which update `frozen`)
     for a in ATTRS:
         require(_eq(getattr(screen, a), frozen[a]), "parent_untouched." + a, "parent screen's %s changed" % a)
+
+    # the unique filter on EVERY view of three rows of a small screen (ids with gaps, a replicate after another condition, ...)
+    if 3 <= n <= 9 and len(case["ops"]) % 3 == 0:
+        import itertools as _it
+
+        key_ = lambda i: (int(screen.sample_ids[i]),) + tuple(int(x) for x in screen.treatment_ids[i])
+        for trio in _it.combinations(range(n), 3):
+            m_ = np.zeros(n, dtype=bool)
+            m_[list(trio)] = True
+            got_ = np.where(np.asarray(filter_dataset_to_unique_treatments(screen.subset(m_)).selection_vector))[0].tolist()
+            ks_ = [key_(i) for i in got_]
+            require(set(got_) <= set(trio) and len(ks_) == len(set(ks_)) and set(ks_) == set(key_(i) for i in trio), "unique.small_views", lambda: "unique filter on the view of rows %r (conditions %r) keeps rows %r" % (list(trio), [key_(i) for i in trio], got_))
 
     # observed/unobserved partition
     so, su = screen.subset_observed(), screen.subset_unobserved()
